@@ -1,3 +1,5 @@
+// (the binnings of the two distributions - 25 bins on [0.1, 1), 6 x 7 bins on [0.2, 1) x [0.1, 1) - have bin sizes that are not exactly
+// representable: what the text stores must reproduce them bit for bit)
 // Session driver (C03, C15, C19): executes histories of run / save+load / file / rollback / resume on
 // the real integrators and records one event per action of spec/Trace_Session.tla.
 //   drv_session <out.ndjson> <seed> <thorough> <scratch-dir>     (-DVT_TYPE=float|double|"long double")
@@ -68,8 +70,8 @@ struct plain_kind
             return v;
         };
         if (x.dists)
-            return hep::plain(hep::make_integrand<T>(f1, 2, hep::make_dist_params<T>(3, T(), T(1), nm[0]),
-                hep::distribution_parameters<T>(2, 2, T(), T(1), T(), T(1), nm[1])), calls, c, cb);
+            return hep::plain(hep::make_integrand<T>(f1, 2, hep::make_dist_params<T>(25, T(0.1), T(1), nm[0]),
+                hep::distribution_parameters<T>(6, 7, T(0.2), T(1), T(0.1), T(1), nm[1])), calls, c, cb);
         return hep::plain(hep::make_integrand<T>(f0, 2), calls, c, cb);
     }
 };
@@ -141,8 +143,8 @@ struct vegas_kind
         };
         std::vector<std::string> const& nm = x.names;
         if (x.dists)
-            return hep::vegas(hep::make_integrand<T>(f1, 2, hep::make_dist_params<T>(3, T(), T(1), nm[0]),
-                hep::distribution_parameters<T>(2, 2, T(), T(1), T(), T(1), nm[1])), calls, c, cb);
+            return hep::vegas(hep::make_integrand<T>(f1, 2, hep::make_dist_params<T>(25, T(0.1), T(1), nm[0]),
+                hep::distribution_parameters<T>(6, 7, T(0.2), T(1), T(0.1), T(1), nm[1])), calls, c, cb);
         return hep::vegas(hep::make_integrand<T>(f0, 2), calls, c, cb);
     }
 };
@@ -205,8 +207,8 @@ struct mc_kind
         };
         std::vector<std::string> const& nm = x.names;
         if (x.dists)
-            return hep::multi_channel(hep::make_multi_channel_integrand<T>(f1, 1, map, 1, 4, hep::make_dist_params<T>(3, T(), T(1), nm[0]),
-                hep::distribution_parameters<T>(2, 2, T(), T(1), T(), T(1), nm[1])), calls, c, cb);
+            return hep::multi_channel(hep::make_multi_channel_integrand<T>(f1, 1, map, 1, 4, hep::make_dist_params<T>(25, T(0.1), T(1), nm[0]),
+                hep::distribution_parameters<T>(6, 7, T(0.2), T(1), T(0.1), T(1), nm[1])), calls, c, cb);
         return hep::multi_channel(hep::make_multi_channel_integrand<T>(f0, 1, map, 1, 4), calls, c, cb);
     }
 };
